@@ -76,6 +76,8 @@ var props = map[string]propCfg{
 		Required: []string{"attrq_answered", "attrq_refused", "attrq_filtered", "attrq_answered_with_advertised_destination", "key_rotated", "storage_err"}},
 	"C13": {Level: "exploration", QuickRuns: 1500, QuickBud: 22 * time.Second, ThorRuns: 200000, ThorBud: 10 * time.Minute,
 		Required: []string{"logout_success", "logout_failure", "now_equals_notonorafter", "now_equals_issueinstant", "sp_reregistered", "sp_deleted", "sp_skew"}},
+	"C15": {Level: "exploration", QuickRuns: 1200, QuickBud: 25 * time.Second, ThorRuns: 200000, ThorBud: 12 * time.Minute, Race: true,
+		Required: []string{"request_overlapped_another", "message_id_checked", "overlap_window"}},
 	"C08": {Level: "exploration", QuickRuns: 1500, QuickBud: 22 * time.Second, ThorRuns: 200000, ThorBud: 10 * time.Minute,
 		Required: []string{"sso_persisted", "sso_not_persisted", "storage_err", "body_error_at"}},
 }
@@ -328,6 +330,32 @@ func main() {
 			viols = append(viols, o.Violation)
 		}
 	}
+	realIDs := map[string]any{}
+	if prop == "C15" {
+		n := 200000
+		if tier == "thorough" {
+			n = 2000000
+		}
+		of := filepath.Join(tmp, "realids.json")
+		cmd := exec.Command(bin, "-test.run", "^TestRealIDs$", "-test.timeout", "0", "-realids", fmt.Sprint(n), "-out", of)
+		cmd.Env = append(os.Environ(), "GOMAXPROCS=16")
+		if out, err := cmd.CombinedOutput(); err != nil {
+			die(2, "real-ID stage failed to run: %v\n%s", err, abbreviate(string(out), 2000))
+		}
+		b, err := os.ReadFile(of)
+		if err != nil || json.Unmarshal(b, &realIDs) != nil {
+			die(2, "real-ID stage wrote no result")
+		}
+		d, _ := realIDs["duplicates"].(float64)
+		il, _ := realIDs["illegal"].(float64)
+		if d > 0 || il > 0 {
+			path := filepath.Join(verifDir, "replays", fmt.Sprintf("C15-realids-%d.json", seed))
+			nb, _ := json.MarshalIndent(map[string]any{"format": 1, "property": "C15", "stage": "realids", "ids": n, "result": realIDs}, "", " ")
+			os.WriteFile(path, nb, 0o644)
+			fmt.Printf("  rule: C15.4 ids (real randomness source)\n  observed: %s\nVIOLATION property=C15 replay=%s\n", string(b), path)
+			os.Exit(1)
+		}
+	}
 	wall := time.Since(start).Seconds()
 
 	// every violation must reproduce from its replay file in a fresh process
@@ -387,6 +415,9 @@ func main() {
 		"exhaustive":                 exhaustive && total.Enumerated > 0,
 		"enumerated_fault_scenarios": total.Enumerated,
 	}
+	if len(realIDs) > 0 {
+		cov["real_randomness_id_stage"] = realIDs
+	}
 	ev := map[string]any{
 		"property_id": prop, "tier": tier, "seed": seed, "level": cfg.Level, "coverage": cov,
 		"assumptions": append(append([]string{}, commonAssume...), cfg.Assume...), "wall_s": wall, "violations": len(confirmed),
@@ -428,6 +459,17 @@ func replayOK(bin, path string) bool {
 }
 
 func replay(path string) {
+	if strings.Contains(filepath.Base(path), "C15-realids") {
+		bin := build(false)
+		out, _ := exec.Command(bin, "-test.run", "^TestRealIDs$", "-test.timeout", "0", "-realids", "2000000").CombinedOutput()
+		os.Stdout.Write(out)
+		if bytes.Contains(out, []byte(`"duplicates":0`)) && bytes.Contains(out, []byte(`"illegal":0`)) {
+			fmt.Println("vcheck: the ID stage found no duplicate or illegal ID on this tree")
+			return
+		}
+		fmt.Printf("VIOLATION property=C15 replay=%s\n", path)
+		os.Exit(1)
+	}
 	raceMode := strings.Contains(filepath.Base(path), "C15-race")
 	bin := build(raceMode)
 	cmd := exec.Command(bin, "-test.run", "^TestReplay$", "-test.timeout", "0", "-replay", path, "-trace")
